@@ -59,6 +59,7 @@ namespace c15 {
         add_struct( mo, "skip_levels_are_sublists", sub && heights_ok && !cyc );
         add_struct( mo, "skip_no_marked_reachable", !marks );
         add_struct( mo, "skip_towers_complete", full, heights );
+        mo.shape = heights;
     }
 }
 #endif
